@@ -55,6 +55,37 @@ func (fc *fnCtx) k01dec2Stmt(s ast.Stmt, rest []ast.Stmt, lvl int) (string, bool
 	if !ok || len(as.Rhs) != 1 {
 		return "", false, nil
 	}
+	if id, isId := as.Rhs[0].(*ast.Ident); isId && id.Name == "nil" && as.Tok == token.ASSIGN && len(as.Lhs) == 1 {
+		// `x.f = nil` for a field of one of the decoder's object types: the nil value of its representation
+		if sel, isSel := as.Lhs[0].(*ast.SelectorExpr); isSel {
+			if key, lt, okf := fc.fieldKey(sel); okf {
+				nilv := ""
+				switch lt {
+				case "Int":
+					if k01decIsVersion(fc.p.TypesInfo.TypeOf(sel)) {
+						nilv = "(-1)"
+					}
+				case k01decFmtType:
+					nilv = "none"
+				}
+				if nilv != "" {
+					if _, seen := fc.locals[key]; !seen {
+						return "", true, fmt.Errorf("assignment to untranslated field %s", key)
+					}
+					var sb strings.Builder
+					sb.WriteString(fc.flush(lvl))
+					nn := fc.bump(key)
+					fmt.Fprintf(&sb, "%slet %s := %s\n", ind(lvl), nn, nilv)
+					r, err := fc.mblock(rest, lvl)
+					if err != nil {
+						return "", true, err
+					}
+					return sb.String() + r, true, nil
+				}
+			}
+		}
+		return "", false, nil
+	}
 	call, ok := as.Rhs[0].(*ast.CallExpr)
 	if !ok {
 		return "", false, nil
